@@ -277,14 +277,31 @@ Section Skel.
        | None => true
        end.
 
-  (* table = thead with one row, optionally followed by one tbody *)
+  (* table = thead with one row (tr of th/td), optionally followed by one tbody of rows *)
+  Definition cell_static (c : tok) : bool :=
+    match kind_of (ty c) with KTh | KTd => true | _ => false end.
+  Definition row_static (r : tok) : bool :=
+    match kind_of (ty r) with KTr => forallb cell_static (children r) | _ => false end.
+  Definition thead_static (h : tok) : bool :=
+    match kind_of (ty h), children h with KThead, [r] => row_static r | _, _ => false end.
+  Definition tbody_static (b : tok) : bool :=
+    match kind_of (ty b) with KTbody => forallb row_static (children b) | _ => false end.
   Definition table_static (cs : list tok) : bool :=
     match cs with
-    | [h] => match kind_of (ty h), children h with KThead, [_] => true | _, _ => false end
-    | [h; b] => match kind_of (ty h), children h, kind_of (ty b) with
-                | KThead, [_], KTbody => true
-                | _, _, _ => false
-                end
+    | [h] => thead_static h
+    | [h; b] => thead_static h && tbody_static b
+    | _ => false
+    end.
+
+  (* field list = (fieldlist_name, fieldlist_body) pairs, as the plug-in emits them *)
+  Fixpoint field_static (cs : list tok) : bool :=
+    match cs with
+    | [] => true
+    | n :: b :: r =>
+        match kind_of (ty n), kind_of (ty b) with
+        | KFieldlistName, KFieldlistBody => field_static r
+        | _, _ => false
+        end
     | _ => false
     end.
 
@@ -295,6 +312,7 @@ Section Skel.
         && match kind_of ty with
            | KLink => link_static t
            | KTable => table_static cs
+           | KFieldList => field_static cs
            | _ => true
            end
         && match kind_of ty with
